@@ -530,7 +530,7 @@ def writeAspi (c : Ctx) (v : Val) : Except PyErr Bytes :=
 /-! ### VolumeAdjustmentSpec / VolumePeakSpec (on wire integers) -/
 
 def readVolAdj (data : Bytes) : Except PyErr (Val × Bytes) :=
-  if (data.take 2).length = 2 then .ok (.int (ofSignedBE (data.take 2)), data.drop 2) else .error .struct_
+  if (data.take 2).length = 2 then .ok (.int (ofSignedBE (data.take 2)), data.drop 2) else .error .mutagen   -- SpecError (was struct.error before the repair recorded in known_findings.json)
 
 def writeVolAdj (v : Val) : Except PyErr Bytes :=
   match v with
